@@ -22,7 +22,7 @@ import (
 // step kinds. Client kinds start with 'c', backend kinds with 'b'.
 var clientKinds = []string{
 	"c:retry-ok", "c:retry-no-ech", "c:retry-other-config-id", "c:retry-other-suite", "c:retry-nonempty-enc", "c:retry-fresh-context",
-	"c:retry-replayed-seq0", "c:retry-sni-changed", "c:retry-alpn-changed", "c:retry-inner-without-ech", "c:retry-outer-sni-not-public-name", "c:retry-outer-not-tls13",
+	"c:retry-replayed-seq0", "c:retry-sni-changed", "c:retry-alpn-changed", "c:retry-inner-without-ech", "c:retry-outer-sni-not-public-name", "c:retry-outer-not-tls13", "c:retry-ok-fragmented", "c:retry-trailing-bytes",
 	"c:ccs", "c:handshake-other", "c:appdata", "c:alert",
 }
 var backendKinds = []string{"b:server-hello", "b:hrr", "b:ccs", "b:appdata", "b:alert"}
@@ -55,9 +55,13 @@ func (m *model) client(k string) expect {
 			return expect{kind: "verbatim"} // no HelloRetryRequest seen: never decrypted, forwarded as is
 		}
 		switch k {
-		case "c:retry-ok":
+		case "c:retry-ok", "c:retry-ok-fragmented":
 			m.readInterp = false // at most one retry is processed
 			return expect{kind: "inner"}
+		case "c:retry-trailing-bytes":
+			// bytes after the extensions of the second outer hello: not the hello the payload was sealed for
+			m.dead = true
+			return expect{"abort", "decode_error|illegal_parameter|decrypt_error"}
 		case "c:retry-no-ech":
 			m.dead = true
 			return expect{"abort", "missing_extension"}
@@ -178,6 +182,24 @@ func (fx *fixture) build(rng *mrand.Rand, k string) (rec []byte, inner *tlswire.
 	if k == "c:retry-ok" {
 		return outer.HelloRecord(0x0303), in
 	}
+	if k == "c:retry-ok-fragmented" {
+		// the same well-formed retry, split across two or three handshake records
+		msg := outer.Message()
+		var recs []byte
+		for len(msg) > 0 {
+			n := len(msg)
+			if len(recs) < 20 {
+				n = 1 + rng.IntN(len(msg))
+			}
+			recs = append(recs, tlswire.Record(22, 0x0303, msg[:n])...)
+			msg = msg[n:]
+		}
+		return recs, in
+	}
+	if k == "c:retry-trailing-bytes" {
+		outer.Trailing = hellogen.Bytes(rng, 1+rng.IntN(9))
+		return outer.HelloRecord(0x0303), nil
+	}
 	return outer.HelloRecord(0x0303), nil
 }
 
@@ -223,6 +245,19 @@ func runHistory(r *mon.Run, work string, idx int, rng *mrand.Rand, keys []echgen
 				obs = "abort:" + cls
 			case bytes.Equal(got, rec):
 				obs = "verbatim"
+			case k == "c:retry-ok-fragmented" && bytes.HasPrefix(rec, got) && len(got) > 0:
+				// not interpreted: the first fragment comes out as it went in; drain the other fragments
+				obs = "verbatim"
+				rest := rec[len(got):]
+				for len(rest) > 0 && err == nil {
+					var more []byte
+					more, err = echrun.ReadRecord(flow.Conn)
+					if !bytes.HasPrefix(rest, more) || len(more) == 0 {
+						obs = "other-bytes"
+						break
+					}
+					rest = rest[len(more):]
+				}
 			case inner != nil && len(got) > 5 && bytes.Equal(got[5:], inner.Message()):
 				obs = "inner"
 			default:
@@ -367,7 +402,9 @@ func TestCheck(t *testing.T) {
 				return
 			}
 			pre := []string{"", "c:ccs"}[rng.IntN(2)]
-			second, inner := fx.build(rng, "c:retry-ok")
+			kind := []string{"c:retry-ok", "c:retry-ok", "c:retry-sni-changed", "c:retry-no-ech"}[i%4]
+			c["second"] = kind
+			second, inner := fx.build(rng, kind)
 			hrr, _ := fx.build(rng, "b:hrr")
 			type rd struct {
 				recs [][]byte
@@ -411,6 +448,10 @@ func TestCheck(t *testing.T) {
 			r.Eval(fmt.Sprintf("conc|%d|%s|%d", aead, pre, len(fx.first.Inner.Exts)))
 			last := x.recs[len(x.recs)-1]
 			switch {
+			case kind != "c:retry-ok" && x.err != nil:
+				r.Count("concurrent_ill_formed_retries_aborted", 1) // aborted while the writer is still inside Write
+			case kind != "c:retry-ok":
+				r.Violate("reply-before-write-returns", i, "concurrent:ill-formed-retry-not-aborted", "an ill-formed second hello ("+kind+") read while Write(HRR) was in progress was not aborted", c)
 			case x.err != nil:
 				r.Violate("reply-before-write-returns", i, "concurrent:retry-aborted:"+echrun.Class(x.err), fmt.Sprintf("a well-formed retry read while Write(HRR) was in progress was aborted: %v", x.err), c)
 			case bytes.Equal(last, second):
@@ -422,7 +463,84 @@ func TestCheck(t *testing.T) {
 			}
 		})
 	})
-	r.Floor("concurrent_retries_rewritten", int64(nc*9/10))
+	r.Floor("concurrent_retries_rewritten", int64(nc*4/10))
+	r.Floor("concurrent_ill_formed_retries_aborted", int64(nc*4/10))
+	// the schedule every proxy produces: the client-to-backend goroutine is already blocked in Read when the backend's
+	// HelloRetryRequest goes through Write; the client then answers (with or without a compatibility change_cipher_spec)
+	np := r.N(300, 20000)
+	r.Parallel("read-pending-when-hrr-is-written", np, func(i int, rng *mrand.Rand) {
+		key := keys[rng.IntN(len(keys))]
+		aead := []uint16{hpkex.AES128GCM, hpkex.AES256GCM, hpkex.ChaCha20}[rng.IntN(3)]
+		o := echgen.DefaultOpts()
+		o.MaxExtra = 2
+		fx := &fixture{key: key, aead: aead}
+		fx.first = echgen.Gen(rng, key, aead, o)
+		kind := []string{"c:retry-ok", "c:retry-ok-fragmented", "c:retry-no-ech", "c:retry-sni-changed"}[i%4]
+		withCCS := rng.IntN(2) == 0
+		c := map[string]any{"first": fx.first.Describe(), "schedule": "Read pending on the transport while Write(HRR) runs", "second": kind, "ccs_first": withCCS}
+		r.Guard("read-pending-when-hrr-is-written", i, "concurrent", c, func() {
+			flow, out := echrun.StartFlow(fx.first.Record(), []ech.Key{key.TLSKey()})
+			if out.Err != nil || !out.Accepted {
+				r.Inconclusive("first hello not accepted (%v)", out.Err)
+				return
+			}
+			second, inner := fx.build(rng, kind)
+			hrr, _ := fx.build(rng, "b:hrr")
+			type rd struct {
+				recs [][]byte
+				err  error
+			}
+			got := make(chan rd, 1)
+			select { // drop a stale token from NewConn's own reads
+			case <-flow.Tap.Blocked:
+			default:
+			}
+			go func() {
+				var x rd
+				n := 1
+				if withCCS {
+					n = 2
+				}
+				for j := 0; j < n && x.err == nil; j++ {
+					var rec []byte
+					rec, x.err = echrun.ReadRecord(flow.Conn)
+					x.recs = append(x.recs, rec)
+				}
+				got <- x
+			}()
+			<-flow.Tap.Blocked // the reader is now waiting inside the transport's Read
+			if _, _, err := flow.Backend(hrr); err != nil {
+				r.Violate("read-pending-when-hrr-is-written", i, "concurrent:hrr-write-failed", err.Error(), c)
+				flow.Tap.CloseInput(nil)
+				<-got
+				return
+			}
+			if withCCS {
+				ccs, _ := fx.build(rng, "c:ccs")
+				flow.Tap.Feed(ccs)
+			}
+			flow.Tap.Feed(second)
+			x := <-got
+			r.Count("pending_read_cases", 1)
+			r.Eval(fmt.Sprintf("pending|%d|%s|%v", aead, kind, withCCS))
+			last := x.recs[len(x.recs)-1]
+			wantInner := kind == "c:retry-ok" || kind == "c:retry-ok-fragmented"
+			switch {
+			case wantInner && x.err != nil:
+				r.Violate("read-pending-when-hrr-is-written", i, "pending-read:retry-aborted:"+echrun.Class(x.err), fmt.Sprintf("a well-formed retry was aborted: %v", x.err), c)
+			case x.err == nil && (bytes.Equal(last, second) || bytes.HasPrefix(second, last)):
+				r.Violate("read-pending-when-hrr-is-written", i, "pending-read:second-hello-forwarded-unchecked", "the Read that was pending when the HelloRetryRequest was written forwarded the client's second hello verbatim: it was neither decrypted nor checked against the retry rules", c)
+			case wantInner && (len(last) < 5 || !bytes.Equal(last[5:], inner.Message())):
+				r.Violate("read-pending-when-hrr-is-written", i, "pending-read:retry-wrong-bytes", "the retried hello was replaced by something other than its inner hello", c)
+			case !wantInner && x.err == nil:
+				r.Violate("read-pending-when-hrr-is-written", i, "pending-read:ill-formed-retry-not-aborted", "an ill-formed second hello ("+kind+") was not aborted", c)
+			default:
+				r.Count("pending_read_ok", 1)
+			}
+		})
+	})
+	r.Floor("pending_read_ok", int64(np*9/10))
+
 	r.Floor("histories", int64(len(hists)+n)*9/10)
 	r.Floor("retries_rewritten", 200)
 	r.Floor("aborts_checked", 500)
